@@ -711,7 +711,7 @@ type jsonEnvelope struct {
 
 func (c *stepCtx) judgeReadOnly() {
 	op, res := c.op, c.res
-	if (op.Kind != "json" && op.Kind != "total") || !containsArg(op.Argv, "--now") || c.target == "" {
+	if (op.Kind != "json" && op.Kind != "total" && op.Kind != "today") || !containsArg(op.Argv, "--now") || c.target == "" {
 		return
 	}
 	st, ok := parseState(c.before[c.target])
@@ -762,6 +762,23 @@ func (c *stepCtx) judgeReadOnly() {
 	}
 	if res.Failed {
 		c.report("C17", "now-refused", op.Kind, "--now is applicable to every open range but klog failed: "+shortText(res.ErrText, 200))
+		return
+	}
+	if op.Kind == "today" {
+		// `today --now --decimal --no-style`: the line "All <minutes>" is the grand total; any other shape is not judged
+		m := regexp.MustCompile(`(?m)^All\s+(-?\d+)\s*$`).FindStringSubmatch(res.Stdout)
+		if m == nil || !containsArg(op.Argv, "--decimal") {
+			c.out.stat("today_now_not_parsed", 1)
+			return
+		}
+		want := 0
+		for _, e := range expected {
+			want += e
+		}
+		got, _ := strconv.Atoi(m[1])
+		if got != want {
+			c.report("C17", "now-total", "today", fmt.Sprintf("`today --now` reports %d minutes in total, expected %d (now=%s, file=%q)", got, want, c.clock.Format("2006-01-02T15:04"), shortText(c.before[c.target], 300)))
+		}
 		return
 	}
 	if op.Kind == "total" {
